@@ -33,6 +33,13 @@
 //     b - sym(KKT) x of the returned vector has a finite inf-norm (IEEE reasoning "finite residual => finite x" is not modelled)
 //   * rule retbrk (new, tools/extract.py): `return E;` inside a `for` loop -> `{ rb_ret = Some(E); break; }` + `if let Some(v) = rb_ret
 //     { return v; }` after the loop (used in iterative_refinement; see the rule's docstring for why)
+// OBSERVATIONS made while writing the contracts (true of the code, not violations of a stated property):
+//   * QDLDLFactorisation::update_values indexes values[i] for every i < indices.len() (a shorter `values` panics), whereas
+//     _update_values_KKT zips (stops at the shorter): the engine contract therefore REQUIRES values.len() >= index.len(); the assumed
+//     engine contract in unit kkt_reg does not carry this precondition
+//   * DefaultKKTSystem::solve returns the verdict of the reduced solve only; tau_den == 0 / a non-finite step is not checked there
+//     (the dtau clause is stated under tau_den != 0)
+//   * solve_initial_point (LP branch) negates s even when the first solve failed; (QP branch) sets s = -z even on failure
 use vstd::prelude::*;
 verus! {
 //@include prelude/float_opaque.rs
@@ -594,7 +601,7 @@ impl KKTSolver for DirectLDLKKTSolver<F> {
 //@after "self.ldlsolver.solve(&self.KKT, &mut self.x, &self.b);"
         let ghost eng1 = self.ldlsolver;
         let ghost x1 = self.x@;
-//@before "if is_success {"
+//@after "let is_success ="
         proof {
             lemma_same_factor_trans(self.ldlsolver, eng1, old(self).ldlsolver);
             if settings.iterative_refinement_enable && is_success {
@@ -778,7 +785,7 @@ it
             let ghost eprev = e@;
             let ghost xprev = x@;
             let ghost engk = self.ldlsolver;
-//@after "self.ldlsolver.solve(K, dx, e);"
+//@after "self.ldlsolver.solve(K, dx"
             let ghost d = dx@;
             proof {
                 assert(eng_same_factor(self.ldlsolver, eng0)) by {
@@ -1060,7 +1067,7 @@ F
 //@closure 2
 F
 (z_r: F) ensures z_r == f_neg(z)
-//@after "variables.s.negate();"
+//@before "if !is_success"
             let ghost k1 = self.kktsolver;
             proof { if is_success { assert(lp_first(k1, k0, &settings.core_spec(), data.b@, variables.x@, variables.s@)); } }
 //@end
